@@ -282,6 +282,8 @@ void XMLWriter::nail(int x, int y)
 void XMLWriter::transition(const edge_t& edge)
 {
     startElement("transition");
+    if (!edge.control)
+        writeAttribute("controllable", "false");
     // source and target
     auto src = source(edge);
     auto dst = target(edge);
@@ -316,6 +318,9 @@ void XMLWriter::labels(int x, int y, const edge_t& edge)
     }
     if (!edge.assign.empty()) {
         label("assignment", edge.assign.str(), x, y + 16);
+    }
+    if (!edge.prob.empty()) {
+        label("probability", edge.prob.str(), x, y + 32);
     }
 }
 
